@@ -137,6 +137,11 @@ CASES = [
     ("field prefix", {"type": "field_name_prefix", "prefix": "p_"}, R(BASE, fields=["f"]), R({"sel": {"p_f": "a", "p_g|contains": ["x", "y"]}, "kw": ["k1", "k2"]}, fields=["p_f"])),
     ("field suffix", {"type": "field_name_suffix", "suffix": "_s"}, R(BASE), R({"sel": {"f_s": "a", "g_s|contains": ["x", "y"]}, "kw": ["k1", "k2"]})),
     ("prefix mapping", {"type": "field_name_prefix_mapping", "mapping": {"f": "zz"}}, R({"sel": {"f": "a", "fx": "b", "g": "c"}}, "sel"), R({"sel": {"zz": "a", "zzx": "b", "g": "c"}}, "sel")),
+    ("prefix mapping, prefix text repeated inside the name", {"type": "field_name_prefix_mapping", "mapping": {"win.": "w."}}, R({"sel": {"win.data.win.image": "a", "x|fieldref": "win.a.win.b"}}, "not sel", fields=["win.x.win.y"]),
+     R({"sel": {"w.data.win.image": "a", "x|fieldref": "w.a.win.b"}}, "not sel", fields=["w.x.win.y"])),
+    ("prefix mapping one-to-many, repeated prefix", {"type": "field_name_prefix_mapping", "mapping": {"ab": ["x", "y"]}}, R({"sel": {"abab": "a"}}, "not sel"), R({"s": [{"xab": "a"}, {"yab": "a"}]}, "not s")),
+    ("regex flags survive placeholder expansion", {"type": "value_placeholders"}, R({"sel": {"f|re|i|expand": "^%v%$"}}, "not sel"), R({"sel": {"f|re|i": ["^V1$", "^V2$"]}}, "not sel")),
+    ("regex flags survive wildcard placeholders", {"type": "wildcard_placeholders"}, R({"sel": {"f|re|m|s|expand": "a%v%b"}}, "sel"), R({"sel": {"f|re|m|s": "a.*b"}}, "sel")),
     ("field in fieldref", {"type": "field_name_mapping", "mapping": {"f": "f2"}}, R({"sel": {"x|fieldref": "f", "f|fieldref": "y"}}, "sel"), R({"sel": {"x|fieldref": "f2", "f2|fieldref": "y"}}, "sel")),
     ("drop item", {"type": "drop_detection_item", "field_name_conditions": [{"type": "include_fields", "fields": ["g"]}]}, R(BASE), R({"sel": {"f": "a"}, "kw": ["k1", "k2"]})),
     ("add condition", {"type": "add_condition", "conditions": {"idx": "main"}}, R(BASE), R({"sel": {"f": "a", "g|contains": ["x", "y"]}, "kw": ["k1", "k2"], "c": {"idx": "main"}}, "c and (sel or kw)")),
